@@ -335,6 +335,25 @@ func checkC05(c *Ctx) {
 	}
 	compareModes(c, "loop-left-by-panic", pc, pmeta, RunOpt{MaxDepth: 150}, RunOpt{NoReg: true, MaxDepth: 150}, func(int) string { return "registers-observable-after-recovered-panic" })
 
+	// 3d. the depth limit: a recursion reaching exactly the limit ends the same way in both modes, whatever the deepest
+	//     evaluation is (reading a parameter held in a register must cost what reading a variable costs)
+	var dlc [][]string
+	var dlmeta []map[string]any
+	for _, leaf := range []string{"-n", "n", "(n)", "n + 0", "[n]", "{n: n}", "n == n", "!last", "[n][0]", "n = n + 1; n", "++n", "m = n; m", "for i = 1 {i}", "for i = 1 {n}", "len([n, n])", "min(n, 3)", "str(n)"} {
+		def := "func f(n, last) {if last {return " + leaf + "}; f(n - 1, n == 1)}"
+		if strings.Contains(leaf, ";") || strings.HasPrefix(leaf, "for") {
+			def = "func f(n, last) {if last {" + leaf + "} else {f(n - 1, n == 1)}}"
+		}
+		in := []string{def}
+		for k := 80; k <= 104; k++ {
+			in = append(in, fmt.Sprintf("f(%d, false)", k))
+		}
+		dlc = append(dlc, in)
+		dlmeta = append(dlmeta, map[string]any{"family": "depth-limit"})
+		c.Case(strings.Join(in, "\n"), true)
+	}
+	compareModes(c, "depth-limit", dlc, dlmeta, RunOpt{MaxDepth: 100, CacheOff: true}, RunOpt{NoReg: true, MaxDepth: 100, CacheOff: true}, func(int) string { return "registers-observable-at-the-depth-limit" })
+
 	// 4. pinned reproducers of listed findings (always run)
 	pinned := []struct{ sig, src string }{
 		{"loop-variable-visibility-after-loop", "i = 100; for i = 3 {}; println(i)"},
@@ -371,7 +390,7 @@ func replayC05(rp map[string]any) (bool, string) {
 // exit, each repeated 10 times in one session (so that a leak accumulates across inputs).
 func deepRegisterSessions(seed int) ([][]string, []map[string]any) {
 	var deep [][]string
-	var dmeta []map[string]any
+	var dlmeta []map[string]any
 	for _, k := range []int{0, 7, 8, 9, 12} {
 		for _, depthN := range []int{8, 9, 10} {
 			var ops []regOp
@@ -397,9 +416,9 @@ func deepRegisterSessions(seed int) ([][]string, []map[string]any) {
 					rep = append(rep, h...)
 				}
 				deep = append(deep, instantiateSchedule(rep, seed))
-				dmeta = append(dmeta, map[string]any{"params": k, "nesting": depthN, "exit": kind})
+				dlmeta = append(dlmeta, map[string]any{"params": k, "nesting": depthN, "exit": kind})
 			}
 		}
 	}
-	return deep, dmeta
+	return deep, dlmeta
 }
